@@ -15,6 +15,11 @@ helpers' results on to the slot-level formulas / estimators ("chain"); `receiver
 over every argument, alone / with P_avg / broadcast; `forms`: integer / numpy / 0-d / float32 operands, containers,
 documented defaults, keyword vs positional forms, undocumented spellings (either rejected or the same value).
 
+Eye-object classes (added after seeded wave 5): the estimators part carries the axis `extras` - eye objects that hold MORE
+than mu0, mu1, s0, s1 (a `threshold` attribute set to None / plausible / implausible values, the timing fields, complete
+records as devices.GET_EYE and lab.GET_EYE_v2 store them, consistent and inconsistent with the four statistics) - and four
+eye objects actually measured by devices.GET_EYE; every estimator must return what it returns for the bare object.
+
 The reference model below is written from the property text with scipy.special only; it shares no code with
 the library.  Tolerances: see `/verif/notes/C13.md` (every one is a rounding bound, the 1000/5000-point
 threshold grid band stated by the property, or quad's documented epsabs).
@@ -450,9 +455,14 @@ def formulas_case(case):
 
 # ---------------------------------------------------------------------------------------------------------
 # part 2: estimator helpers
-def _eye(mu0, mu1, s0, s1):
+def _eye(mu0, mu1, s0, s1, **extras):
     from opticomlib.typing import eye
-    return eye(mu0=mu0, mu1=mu1, s0=s0, s1=s1)
+    return eye(mu0=mu0, mu1=mu1, s0=s0, s1=s1, **extras)
+
+
+def _show_extras(ex):
+    """short text of a dict of additional eye attributes (arrays by shape only)"""
+    return '{' + ', '.join(f'{k}=<array {np.shape(v)}>' if isinstance(v, np.ndarray) else f'{k}={v!r}' for k, v in ex.items()) + '}'
 
 
 def opt_thr_roots(d, S0, S1, M):
@@ -483,8 +493,68 @@ def log_residual(t, d, S0, S1, M):
     return a - b, max(scale, 1.0)
 
 
+# ---- eye objects that carry MORE than the four statistics (axis `extras` of the estimators part) -------------------------
+# An `eye` is an attribute bag: devices.GET_EYE / lab.GET_EYE_v2 store ~25 further fields next to mu0, mu1, s0, s1 (a
+# KDE-minimum `threshold` or None, the timing fields, the resampled record and the sample clusters, er, eye_h, ...), and
+# these are the objects ook.DSP / ppm.DSP hand back to the user.  The statement says the estimators "depend only on
+# mu1-mu0, s0, s1 and M": whatever else the object carries, the result is the one of the bare object.
+EXTRAS = ['threshold=None',            # GET_EYE could not estimate a threshold (its `except` branch)
+          'threshold=midpoint', 'threshold=mu0+d/4',      # plausible measured thresholds (inside the eye)
+          'threshold=mu0', 'threshold=mu1',               # both ends of the range GET_EYE searches
+          'threshold=mu1+d',                              # implausible: outside [mu0, mu1]
+          'timing',                    # the time-axis / bookkeeping fields only, no threshold attribute at all
+          'GET_EYE',                   # every field devices.GET_EYE stores, mutually consistent with the four statistics
+          'GET_EYE-inconsistent',      # the same fields describing ANOTHER eye (levels, spreads, threshold below mu0, er = nan)
+          'lab.GET_EYE']               # the fields lab.GET_EYE_v2 stores (ones / zeros / t0 / t1 instead of the clusters)
+_Z8 = np.array([-1.0, 1.0, -1.0, 1.0, 1.0, -1.0, 1.0, -1.0])       # standard scores with mean 0 and standard deviation 1
+
+
+def eye_extras(name, mu0, mu1, s0, s1):
+    """the additional attributes of the variant `name` for an eye with the statistics (mu0, mu1, s0, s1)"""
+    d = mu1 - mu0
+    if name.startswith('threshold='):
+        return {'threshold': {'None': None, 'midpoint': mu0 + d / 2, 'mu0+d/4': mu0 + d / 4, 'mu0': mu0, 'mu1': mu1, 'mu1+d': mu1 + d}[name[10:]]}
+    sps = 16
+    timing = dict(sps=sps, dt=1 / (sps * 1e9), t_left=-0.5, t_right=0.5, t_opt=0.0, t_dist=1.0, t_span0=-0.05, t_span1=0.05, i=sps // 2 - 1, execution_time=1e-3)
+    if name == 'timing':
+        return timing
+    if name == 'GET_EYE-inconsistent':
+        a0, a1, b0, b1 = mu0 - d, mu1 + 2 * d, 3 * s0, s1 / 3          # the record belongs to another eye
+    else:
+        a0, a1, b0, b1 = mu0, mu1, s0, s1
+    top, bot = a1 + b1 * _Z8, a0 + b0 * _Z8
+    y = np.concatenate([bot, top, top, bot])                            # 2 slots of 16 samples
+    t = np.linspace(-1, 1 - 1 / sps, 2 * sps)
+    er = float(10 * np.log10(a1 / a0)) if a0 > 0 else (math.inf if a0 == 0 else math.nan)
+    out = dict(timing, y=y, t=t, er=er, eye_h=a1 - 3 * b1 - a0 - 3 * b0)
+    if name == 'lab.GET_EYE':
+        out.update(ones=np.concatenate([top, top]), zeros=np.concatenate([bot, bot]), t0=np.linspace(-0.5, 0.5, sps, endpoint=False),
+                   t1=np.linspace(-0.5, 0.5, sps, endpoint=False), y_left=None, y_right=None, threshold=np.float64(mu0 + 0.4 * d))
+        return out
+    nan8 = np.full(8, np.nan)
+    out.update(y_top=np.concatenate([nan8, top, top, nan8]), y_bot=np.concatenate([bot, nan8, nan8, bot]), y_25_75=np.full(2 * sps, np.nan),
+               top_int=(a1 - b1 / 2, a1 + b1 / 2), bot_int=(a0 - b0 / 2, a0 + b0 / 2))
+    if name == 'GET_EYE':
+        out.update(y_left=mu0 + d / 2, y_right=mu0 + d / 2, threshold=np.float64(mu0 + 0.4 * d))
+    else:
+        out.update(y_left=None, y_right=None, threshold=np.float64(mu0 - d), sps_resamp=128, t_opt=0.3125, i=0)
+    return out
+
+
+def extras_offsets(tier):
+    """offsets mu0 (in units of the scale) at which the whole `extras` axis is run: zero (threshold = 0.0 IS mu0) and nonzero"""
+    return OFFSETS[:2] if tier == 'quick' else OFFSETS[:3]
+
+
+def _same(a, b):
+    """two library results obtained from the same (mu0, mu1, s0, s1, M): the same flops on the same numbers; 1e-12
+    relative only leaves room for an implementation that reorders a sum"""
+    return close(a, b, 1e-12, 1e-300)
+
+
 def estimators_case(case):
-    """case = (tier, kind, s0, s1, M[, scale]).  mu ladder x offsets mu0; `scale` multiplies mu0, mu1, s0 and s1 alike."""
+    """case = (tier, kind, s0, s1, M[, scale]).  mu ladder x offsets mu0 (x eye variants with additional attributes at the
+    first offsets); `scale` multiplies mu0, mu1, s0 and s1 alike."""
     tier, kind, s0, s1, M = case[:5]
     c = case[5] if len(case) > 5 else 1.0
     s0, s1 = s0 * c, s1 * c
@@ -492,7 +562,8 @@ def estimators_case(case):
     lad = ladder(tier)
     s = max(s0, s1)
     viol, obs, nlib = [], [], 0
-    nsol = 0
+    nsol = nx = 0
+    xoffs = set(extras_offsets(tier))
 
     def V(key, msg):
         viol.append((key, f'{kind} s0={s0} s1={s1} M={M}: {msg}'))
@@ -573,6 +644,32 @@ def estimators_case(case):
             # one eye object served all the calls above: its parameters are still the ones it was built with
             if (ey.mu0, ey.mu1, ey.s0, ey.s1) != (mu0, mu1, s0, s1):
                 V(f'{kind}:estimators:eye-object-modified', f'mu0={mu0} mu1={mu1}: the eye object now holds {(ey.mu0, ey.mu1, ey.s0, ey.s1)!r}')
+            # ---- the same four statistics on eye objects that carry further attributes: same threshold, same BERs
+            if off in xoffs:
+                nsame = 0
+                for xn in EXTRAS:
+                    ex = eye_extras(xn, mu0, mu1, s0, s1)
+                    eyx = _eye(mu0, mu1, s0, s1, **ex)
+                    thx = float(ook.THRESHOLD_EST(eyx) if kind == 'ook' else ppm.THRESHOLD_EST(eyx, M)); nlib += 1
+                    if kind == 'ook':
+                        bx = {'ook': float(ook.BER_analizer('estimator', eye_obj=eyx))}; nlib += 1
+                    else:
+                        bx = {'hard': float(ppm.BER_analizer('estimator', eye_obj=eyx, M=M, decision='hard')),
+                              'soft': float(ppm.BER_analizer('estimator', eye_obj=eyx, M=M, decision='soft'))}; nlib += 2
+                    what = f'mu0={mu0} mu1={mu1}: eye object that also carries {_show_extras(ex)}'
+                    ok = True
+                    if not _same(thx, th):
+                        ok = False
+                        V(f'{kind}.THRESHOLD_EST:depends-on-other-eye-attributes', f'{what}: threshold {thx!r}; {th!r} for the bare eye(mu0, mu1, s0, s1)')
+                    for dec, v in bx.items():
+                        if not _same(v, bers[dec]):
+                            ok = False
+                            V(f'{kind}.BER_analizer:estimator:{dec}:depends-on-other-eye-attributes',
+                              f'{what}: BER {v!r}; {bers[dec]!r} for the bare eye(mu0, mu1, s0, s1) (reference grid band [{tm*scale!r}, {gm*scale!r}])' if dec != 'soft' else
+                              f'{what}: BER {v!r}; {bers[dec]!r} for the bare eye(mu0, mu1, s0, s1)')
+                    nsame += ok
+                    nx += 1
+                obs.append(('extras', nsame))
 
             # ---- utils.optimum_threshold (variances S0, S1)
             roots = opt_thr_roots(dd, S0, S1, M)
@@ -610,11 +707,102 @@ def estimators_case(case):
                 if abs(t - base['ot']) > 1e-9 * (dd + abs(base['ot'])) * (1 + (abs(mu0) + abs(mu1)) / dd):
                     V('optimum_threshold:not-shift-invariant', f'mu0={mu0}: r-mu0 = {t!r}, at mu0=0: {base["ot"]!r}')
     return res(viol=viol, obs=tuple(obs), nontrivial=bool(nsol), stats={'estimator_points': len(lad) * len(OFFSETS), 'lib_calls': nlib,
-                                                                      'optimum_threshold_with_real_solution': nsol})
+                                                                      'optimum_threshold_with_real_solution': nsol, 'eye_objects_with_additional_attributes': nx})
 
 
 def tol_x(d, mu0, mu1):
     return 1e-9 * d + 8 * EPS * (abs(mu0) + abs(mu1))
+
+
+# ---- eye objects MEASURED by devices.GET_EYE (the objects ook.DSP / ppm.DSP return), fed to every estimator ----------------
+# (format, slots, sps, lower level, upper level, noise sigma, sps_resamp): fixed records, simplest first.  The waveform is
+# built without the library (own LFSR, np.kron, a private RandomState for the noise stream); np.random.seed owns KMeans.
+MEASURED = [('nrz', 128, 16, 0.0, 1.0, 0.10, None),
+            ('nrz', 128, 16, 0.2, 1.2, 0.15, 64),          # resampled record: the object also carries sps_resamp
+            ('ppm4', 256, 16, 0.0, 1.0, 0.12, None),       # one pulse per 4 slots
+            ('nrz', 128, 8, -0.5, 0.5, 0.08, None)]        # negative lower level: er = nan
+MEASURED_MS = [2, 4, 16, 256]
+
+
+def _lfsr7(n):
+    st, out = 0x7F, []
+    for _ in range(n):
+        b = ((st >> 6) ^ (st >> 5)) & 1
+        st = ((st << 1) | b) & 0x7F
+        out.append(st & 1)
+    return np.array(out)
+
+
+def measured_eye_case(case):
+    """case = (index into MEASURED,).  GET_EYE measures a noisy two-level record; the object it returns (mu0, mu1, s0, s1 AND
+    threshold, timing fields, the record, the clusters, ...) goes to every estimator.  Inside the quantifier (s0, s1 > 0,
+    0 < mu1-mu0 <= 20 max(s0, s1)) each result must equal the one for the bare eye(mu0, mu1, s0, s1), which in turn must be
+    consistent with theory_BER(mu1-mu0, s0, s1[, M, decision]) and lie in the reference grid band."""
+    fmt, nsl, sps, a, b, sg_, rs = MEASURED[case[0]]
+    from opticomlib import ook, ppm
+    from opticomlib.devices import GET_EYE
+    from opticomlib.typing import electrical_signal
+    viol, obs, nlib = [], [], 0
+
+    def V(key, msg):
+        viol.append((key, f'GET_EYE record {MEASURED[case[0]]!r}: {msg}'))
+
+    gv_reset(sps=sps, R=1e9)
+    bits = _lfsr7(nsl)
+    if fmt == 'ppm4':
+        sym = (2 * bits[0:nsl // 2:2] + bits[1:nsl // 2:2])[:nsl // 4]
+        slots = np.zeros(nsl, dtype=int)
+        slots[4 * np.arange(len(sym)) + sym] = 1
+    else:
+        slots = bits
+    w = a + (b - a) * np.kron(slots, np.ones(sps)) + np.random.RandomState(1000 + case[0]).normal(0, sg_, nsl * sps)
+    np.random.seed(case[0])
+    ey = GET_EYE(electrical_signal(w)) if rs is None else GET_EYE(electrical_signal(w), sps_resamp=rs)
+    mu0, mu1, s0, s1 = ey.mu0, ey.mu1, ey.s0, ey.s1           # numpy float64 scalars as stored by GET_EYE
+    extra = sorted(k for k in vars(ey) if k not in ('mu0', 'mu1', 's0', 's1'))
+    f0, f1, fs0, fs1 = float(mu0), float(mu1), float(s0), float(s1)
+    d = f1 - f0
+    obs.append((f0, f1, fs0, fs1, None if ey.threshold is None else float(ey.threshold), tuple(extra)))
+    if not (np.isfinite([f0, f1, fs0, fs1]).all() and fs0 > 0 and fs1 > 0 and 0 < d <= 20 * max(fs0, fs1)):
+        return res(viol=viol, obs=tuple(obs), nontrivial=False, stats={'measured_eyes_outside_the_quantifier': 1})
+    bare = _eye(mu0, mu1, s0, s1)
+    rnd = 8 * EPS * (abs(f0) + abs(f1))
+    what = f'measured eye mu0={f0!r} mu1={f1!r} s0={fs0!r} s1={fs1!r} (threshold attribute {ey.threshold!r}, {len(extra)} further attributes)'
+    jobs = [('ook', 2, 'ook.THRESHOLD_EST', None, lambda e: ook.THRESHOLD_EST(e)),
+            ('ook', 2, 'ook.BER_analizer:estimator:ook', 'ook', lambda e: ook.BER_analizer('estimator', eye_obj=e))]
+    for M in MEASURED_MS:
+        jobs += [('ppm', M, 'ppm.THRESHOLD_EST', None, lambda e, M=M: ppm.THRESHOLD_EST(e, M)),
+                 ('ppm', M, 'ppm.BER_analizer:estimator:hard', 'hard', lambda e, M=M: ppm.BER_analizer('estimator', eye_obj=e, M=M, decision='hard')),
+                 ('ppm', M, 'ppm.BER_analizer:estimator:soft', 'soft', lambda e, M=M: ppm.BER_analizer('estimator', eye_obj=e, M=M, decision='soft'))]
+    bands = {}
+    vals = []
+    for kind, M, name, dec, f in jobs:
+        vm, vb = float(f(ey)), float(f(bare)); nlib += 2
+        obs.append((name, M, vb))
+        if not _same(vm, vb):
+            V(f'{name}:depends-on-other-eye-attributes', f'{what}{"" if kind == "ook" else f" M={M}"}: {vm!r}; {vb!r} for the bare eye(mu0, mu1, s0, s1)')
+        if dec is None:
+            if not (f0 <= vb <= f1):
+                V(f'{kind}.THRESHOLD_EST:outside-[mu0,mu1]', f'{what} M={M}: threshold {vb!r}')
+            continue
+        vals.append(vb)
+        if dec == 'soft':
+            t = float(ppm.theory_BER(d, s0, s1, M, 'soft')); nlib += 1
+            if not close(vb, t, RT_CURVE, 2 * AT_SOFT):
+                V('ppm.BER_analizer:estimator!=theory_BER:soft', f'{what} M={M}: estimator {vb!r}, theory_BER {t!r}')
+            continue
+        if (kind, M) not in bands:
+            bands[(kind, M)] = band(kind, d, fs0, fs1, M, 1000)
+        tm, gm, _ = bands[(kind, M)]
+        sc = 1.0 if kind == 'ook' else bit(M)
+        ah = 0.0 if kind == 'ook' else at_hard(M)
+        slack = gm * sc * (RT_GRID + 40 * rnd / min(fs0, fs1)) + ah
+        if not np.isfinite(vb) or vb < tm * sc * (1 - RT_GRID) - slack or vb > gm * sc + slack:
+            V(f'{kind}.BER_analizer:estimator:{dec}:outside-grid-band', f'{what} M={M}: {vb!r} not in [{tm*sc!r}, {gm*sc!r}]')
+        t = float(ook.theory_BER(d, s0, s1) if kind == 'ook' else ppm.theory_BER(d, s0, s1, M, 'hard')); nlib += 1
+        if not close(vb, t, RT_CURVE + 40 * rnd / min(fs0, fs1), ah):
+            V('ook.BER_analizer:estimator!=theory_BER' if kind == 'ook' else 'ppm.BER_analizer:estimator!=theory_BER:hard', f'{what} M={M}: estimator {vb!r}, theory_BER {t!r}')
+    return res(viol=viol, obs=tuple(obs), nontrivial=informative(vals) and ('measured', case[0]), stats={'lib_calls': nlib, 'measured_eyes': 1})
 
 
 # ---------------------------------------------------------------------------------------------------------
@@ -1525,7 +1713,8 @@ def run(ctx):
     k = 3 if ctx.quick else 4
     ctx.rule(f'C13: (0) minimal inputs of DESIGN 8 #8-#12; (1) full product s0,s1 in {sg_} x mu/max(s0,s1) in {lad} x '
              f'[OOK | PPM M in {MS} x (hard, soft)] for ook/ppm.theory_BER incl. vector calls; (2) the same product x offsets mu0 in {OFFSETS} '
-             f'for THRESHOLD_EST, BER_analizer("estimator") and utils.optimum_threshold; (3) receiver model: every point within {k} deviations of two '
+             f'for THRESHOLD_EST, BER_analizer("estimator") and utils.optimum_threshold, and at the offsets {extras_offsets(tier)} x eye objects that carry '
+             f'additional attributes {EXTRAS} (same results as the bare object), + {len(MEASURED)} eye objects measured by devices.GET_EYE x M in {MEASURED_MS}; (3) receiver model: every point within {k} deviations of two '
              f'baselines (unamplified / amplified G=20 dB, NF=5 dB) over the axes {{{", ".join(f"{a}:{len(v)}" for a, v in AXES.items())}}} with the full '
              f'P_avg ladder {P_LADDER} at each point, fixed thresholds {THRESHOLDS}, and the helper results chained into the slot-level formulas; '
              f'(4) PD / EDFA noise scales captured from the scripted RNG over a full product of r, R_L, T, Fn, P_avg, ER, BW; '
@@ -1544,6 +1733,7 @@ def run(ctx):
     ctx.pmap('formulas', formulas_case, fcases, horizon=120)
     t1 = time.time()
     ctx.pmap('estimators', estimators_case, fcases, horizon=240)
+    ctx.pmap('estimators', measured_eye_case, [(i,) for i in range(len(MEASURED))], horizon=120)
     t2 = time.time()
     pts = rx_points(k)
     ctx.extra['receiver_lattice'] = {'k': k, 'points': len(pts), 'baselines': 2, 'P_avg_ladder': len(P_LADDER)}
